@@ -548,19 +548,28 @@ def validate_cases(cases, work, timeout_s=900):
 
 
 def validate_cases_parallel(cases, work, batch=8, jobs=None, timeout_s=900):
-    jobs = jobs or max(2, NCPU // 2)
-    batches = [cases[i:i + batch] for i in range(0, len(cases), batch)]
+    """balanced batches (by number of events), one TLC (JVM) per batch, in parallel"""
+    jobs = jobs or max(2, NCPU - 4)
+    if not cases:
+        return [], {'generated': 0, 'distinct': 0}, []
+    nb = max(1, min(len(cases), max(jobs, (len(cases) + batch - 1) // batch)))
+    bins = [[] for _ in range(nb)]
+    load = [0] * nb
+    for idx in sorted(range(len(cases)), key=lambda i: -len(cases[i]['events'])):
+        k = load.index(min(load))
+        bins[k].append(idx)
+        load[k] += len(cases[idx]['events']) + 50
+    bins = [b for b in bins if b]
     allv, stats, fails = [], {'generated': 0, 'distinct': 0}, []
     with cf.ThreadPoolExecutor(max_workers=jobs) as ex:
-        futs = [ex.submit(validate_cases, b, work, timeout_s) for b in batches]
+        futs = [ex.submit(validate_cases, [cases[i] for i in b], work, timeout_s) for b in bins]
         for bi, f in enumerate(futs):
             ok, v, st, out = f.result()
             if not ok:
                 fails.append((bi, out[-3000:]))
                 continue
             for x in v:
-                # x = [prop, rule, detail, ci, l]; make the case index global
-                allv.append({'prop': x[0], 'rule': x[1], 'detail': x[2], 'case': bi * batch + x[3] - 1, 'line': x[4]})
+                allv.append({'prop': x[0], 'rule': x[1], 'detail': x[2], 'case': bins[bi][x[3] - 1], 'line': x[4]})
             for k in stats:
                 stats[k] += st.get(k, 0)
     return allv, stats, fails
